@@ -210,15 +210,19 @@ class DefGen:
         kind = r.choice(["pair", "pair", "pair", "data", "header"])
         key = 1000 + idx if r.random() < 0.9 else r.choice([7, 18])
         defs = []
+        # upstream drops old versions (Kafka 4 definitions start at "3-12" and the like): the first valid version need not be 0
+        vmin = r.randint(1, vmax) if vmax >= 1 and r.random() < 0.2 else 0
+        if vmin:
+            self.count("valid-versions-start-above-zero")
         if kind == "pair":
             for t in ("request", "response"):
-                d = {"apiKey": key, "type": t, "name": base + t.capitalize(), "validVersions": f"0-{vmax}" if vmax or r.random() < 0.5 else "0",
+                d = {"apiKey": key, "type": t, "name": base + t.capitalize(), "validVersions": (f"{vmin}-{vmax}" if vmin != vmax else f"{vmin}") if vmin else f"0-{vmax}" if vmax or r.random() < 0.5 else "0",
                      "flexibleVersions": flex, "fields": self.fields(vmax, first_flex, 0, set(used_structs), commons)}
                 if commons:
                     d["commonStructs"] = commons
                 defs.append(d)
         else:
-            d = {"type": kind, "name": base + ("Header" if kind == "header" else "Data"), "validVersions": f"0-{vmax}",
+            d = {"type": kind, "name": base + ("Header" if kind == "header" else "Data"), "validVersions": f"{vmin}-{vmax}",
                  "flexibleVersions": flex, "fields": self.fields(vmax, first_flex, 0, set(used_structs), commons)}
             if commons:
                 d["commonStructs"] = commons
@@ -359,6 +363,14 @@ def systematic(thorough=False):
                      "commonStructs": sys_commons,
                      "fields": [dict(anchor)] + holders + [{"name": "Next", "type": "SysCursor", "versions": "0+"},
                                                            {"name": "Filter", "type": "[]SysOffsetRange", "versions": "0+"}]})
+    for ty in ("request", "response"):
+        defs.append({"apiKey": 2102, "type": ty, "name": f"SysLateStart{ty.capitalize()}", "validVersions": "2-4", "flexibleVersions": "3+",
+                     "fields": [dict(anchor), {"name": "Name", "type": "string", "versions": "0+"},
+                                {"name": "Later", "type": "int64", "versions": "3+", "default": "-1"},
+                                {"name": "Gone", "type": "int16", "versions": "0-1"},
+                                {"name": "Extra", "type": "string", "versions": "4+", "taggedVersions": "4+", "tag": 0, "nullableVersions": "4+", "default": "null"}]})
+    defs.append({"type": "data", "name": "SysLateStartData", "validVersions": "1-2", "flexibleVersions": "none",
+                 "fields": [dict(anchor), {"name": "Items", "type": "[]int32", "versions": "2+"}]})
     defs.append({"apiKey": 2100, "type": "response", "name": "SysDefaultedStructsResponse", "validVersions": "0-3", "flexibleVersions": "2+",
                  "fields": [{"name": "ErrorCode", "type": "int16", "versions": "0+"}] + df})
     defs.append({"apiKey": 2100, "type": "request", "name": "SysDefaultedStructsRequest", "validVersions": "0-3", "flexibleVersions": "2+",
